@@ -10,5 +10,6 @@ MC_FlagsOn == {[unsafe |-> FALSE, ext |-> TRUE, buf |-> TRUE]}
 MC_RangesDeep == {<<4, 4>>}
 MC_RangesQuick == {<<0, 0>>, <<2, 1>>, <<1, 3>>}
 MC_ProtoDeep == {1, 5}
+MC_ProtoLive == {0, 4}
 MC_RangesLife == {<<0, 0>>, <<2, 3>>}
 =============================================================================
